@@ -6,6 +6,13 @@ class StepLimit(Exception):
     pass
 
 
+class StepInterrupt(BaseException):
+    """Raised from outside (timer) into a call that has used up its line budget."""
+
+
+MAX_TICKS = 3000       # 60 s of interruptions every 20 ms
+
+
 def bounded_call(limit, fn, *args):
     count = [0]
 
@@ -32,25 +39,46 @@ def line_budget(iters_limit, trials_now=0):
 
 
 def guarded_call(limit, fn, *args):
-    """(result, exceeded): like bounded_call, but also reports a limit that was hit and then swallowed by the code
-    under test (Process.Solve catches BaseException)."""
-    state = {"count": 0, "hit": False}
+    """(result, exceeded): like bounded_call, but built for code that may catch what the guard raises (Process.Solve
+    catches BaseException; a changed tree may catch and retry in a loop).  A trace function that raises is switched
+    off by the interpreter, so the trace function only counts; once the limit is passed the call is interrupted from
+    outside, by an interval timer whose handler raises StepInterrupt (a BaseException) again and again until the
+    call is left - at most MAX_TICKS times, after which the guard gives up and the shard's watchdog decides."""
+    import signal
+    import threading
+    state = {"count": 0, "hit": False, "ticks": 0}
+    can_signal = threading.current_thread() is threading.main_thread()
+
+    def on_tick(signum, frame):
+        state["ticks"] += 1
+        if state["ticks"] > MAX_TICKS:
+            signal.setitimer(signal.ITIMER_REAL, 0)
+            return
+        raise StepInterrupt("more than %d lines executed" % limit)
 
     def tracer(frame, event, arg):
         if event == "line":
             state["count"] += 1
-            if state["count"] > limit:
+            if state["count"] > limit and not state["hit"]:
                 state["hit"] = True
-                raise StepLimit("more than %d lines executed" % limit)
+                if not can_signal:
+                    raise StepLimit("more than %d lines executed" % limit)
+                signal.signal(signal.SIGALRM, on_tick)
+                signal.setitimer(signal.ITIMER_REAL, 0.002, 0.02)
         return tracer
 
     old = sys.gettrace()
-    sys.settrace(tracer)
+    old_handler = signal.getsignal(signal.SIGALRM) if can_signal else None
+    res = None
     try:
         try:
+            sys.settrace(tracer)
             res = fn(*args)
-        except StepLimit:
-            res = None
-    finally:
-        sys.settrace(old)
+        finally:
+            sys.settrace(old)
+            if can_signal:
+                signal.setitimer(signal.ITIMER_REAL, 0)
+                signal.signal(signal.SIGALRM, old_handler if old_handler is not None else signal.SIG_DFL)
+    except (StepLimit, StepInterrupt):
+        res = None
     return res, state["hit"]
